@@ -1,10 +1,10 @@
 #!/usr/bin/env python3
 """Applies every entry of selftest.json on top of the hooked scratch worktree, runs ./check C15 --engine mutex and
 compares the exit code with the expectation (violation -> 1, clean -> 0).  Usage: run_selftest.py [name ...]
-Environment: MUTEX_WT (default /tmp/wt_mutex), VERIF_JOBS, MUTEX_DEV_SKIP_MC=1 to skip tree-independent TLC runs."""
+Environment: MUTEX_WT (default /var/tmp/mutex_wt; create it with: mkdir -p $MUTEX_WT && cp -r /repo/include /repo/source $MUTEX_WT/), VERIF_JOBS, MUTEX_DEV_SKIP_MC=1 to skip tree-independent TLC runs."""
 import json, os, subprocess, sys, time
 HERE = os.path.dirname(os.path.abspath(__file__))
-WT = os.environ.get("MUTEX_WT", "/tmp/wt_mutex")
+WT = os.environ.get("MUTEX_WT", "/var/tmp/mutex_wt")   # a copy of /repo's include/ + source/ (hooks applied)
 tests = json.load(open(os.path.join(HERE, "selftest.json")))
 sel = set(sys.argv[1:])
 res = []
@@ -20,7 +20,7 @@ for t in tests:
     env = dict(os.environ, VERIF_REPO=WT, VERIF_KNOWN_EXTRA=os.path.join(HERE, "proposed_findings.json"))
     env.setdefault("VERIF_JOBS", "4")
     try:
-        c = subprocess.run(["./check", "C15", "--tier", "quick", "--engine", "mutex"], cwd=os.path.join(HERE, "..", ".."), env=env,
+        c = subprocess.run(["./check", t.get("prop", "C15"), "--tier", "quick", "--engine", "mutex"], cwd=os.path.join(HERE, "..", ".."), env=env,
                            stdout=subprocess.PIPE, stderr=subprocess.STDOUT, text=True, timeout=3000)
         rc, out = c.returncode, c.stdout
     finally:
@@ -28,7 +28,7 @@ for t in tests:
     want = 1 if t["expect"] == "violation" else 0
     first = [l for l in out.splitlines() if l.startswith("  ") or l.startswith("VIOLATION") or l.startswith("BROKEN")][:2]
     ok = rc == want
-    print("%-45s expect=%-9s rc=%d %s %.0fs  %s" % (t["name"], t["expect"], rc, "OK" if ok else "MISMATCH", time.time() - t0, " | ".join(x.strip()[:160] for x in first)), flush=True)
+    print("%-48s %s expect=%-9s rc=%d %s %.0fs  %s" % (t["name"], t.get("prop", "C15"), t["expect"], rc, "OK" if ok else "MISMATCH", time.time() - t0, " | ".join(x.strip()[:160] for x in first)), flush=True)
     res.append((t["name"], rc, ok))
 json.dump(res, open("/var/tmp/mutex_selftest_result.json", "w"))
 sys.exit(0 if all(r[-1] is True for r in res) else 1)
